@@ -99,6 +99,10 @@ def _cfgs(final, stride, rot):
     return range(rot % stride, 288, stride)
 
 
+# option sets of the abort-point family (each case runs 2 x layers + 1 sifts: cheap configurations only)
+ABORT_CFGS = [(('sd', 0.1), 1.0, 'splrep', 2), (('fixed', 2), 1.0, 'pchip', 1), (('sd', 0.3), 0.5, 'splrep', 3), (('fixed', 5), 1.0, 'mono_pchip', 2)]
+
+
 def cases(tier, seed):
     b = bounds(tier)
     k = 0
@@ -135,7 +139,7 @@ def cases(tier, seed):
     # every abort point: a sift left through an exception at (or right after) its k-th extraction, for every k, must
     # leave nothing behind - the next sift of the same record is judged and compared with the undisturbed run
     for i, name in enumerate(signals.fb_names((32,))):
-        yield ('fb-abort', name, seed, (i * 37) % 288)
+        yield ('fb-abort', name, seed, i % len(ABORT_CFGS))
     # amplitudes many orders of magnitude from 1, the sift threshold rescaled with the signal (or switched off)
     for i, name in enumerate(signals.fb_names((32,))):
         if i % 3 == 0:
@@ -196,6 +200,8 @@ def check_case(case):
     input_final = len(mx) < 2 or len(mn) < 2
     GRID = [((r, p), s_, i, pd) for r, p, s_, i, pd in grid()]
     configs = [SUBGRID[case[3] % 12] if input_final else GRID[case[3]]]
+    if case[0] == 'fb-abort':
+        configs = [ABORT_CFGS[case[3] % len(ABORT_CFGS)]]
     viols = []
     trans = 0
     classes = set()
